@@ -141,7 +141,7 @@ def check(run, repo):
         base_ranks = [10 * k for k in range(n_init)]
         # operation alphabet: insert at characteristic positions, pop indices
         ins_pos = sorted(set([5, 15, 25, 10, 20] if n_init > 1 else [5, 15]))
-        ops = [('insert', r) for r in ins_pos] + [('pop', i) for i in (1, 2)]
+        ops = [('insert', r) for r in ins_pos] + [('pop', i) for i in (1, 2, 0, -1)]
         failed = set()
         for L in range(0, depth + 1):
             for seq in itertools.product(ops, repeat=L):
@@ -168,6 +168,11 @@ def check(run, repo):
                     else:
                         n_before = len(w.pairs)
                         idx_ok = arg != 0 and -n_before <= arg < n_before and not (arg < 0 and n_before + arg == 0)
+                        if arg < 0 and n_before + arg == 0:
+                            # the first breakpoint addressed from the end: the documentation refuses index 0 only,
+                            # nothing is claimed about this spelling
+                            valid = False
+                            break
                         r = w.pop(arg)
                         last_owner = pop_owner
                         if not idx_ok:
@@ -176,8 +181,9 @@ def check(run, repo):
                             if not isinstance(r, Raised):
                                 run.fail('REF.pop', 'PiecewiseCovEffect.pop', label,
                                          'pop(%d) on %d breakpoints is accepted' % (arg, n_before), *pop_owner)
-                            valid = False
-                            break
+                                valid = False
+                                break
+                            continue        # refused: the sequence goes on with the model as it was
                         if isinstance(r, Raised):
                             run.fail('REF.pop', 'PiecewiseCovEffect.pop', label, 'pop raises %s' % r.exc, *pop_owner)
                             valid = False
@@ -285,6 +291,8 @@ def _where(op, w):
 
 C_ = 'pmutt/mixture/cov.py'
 MUTANTS = [
+    {'name': 'the first breakpoint can be removed', 'expect': ('REF.pop', 'pop'),
+     'edits': [('pmutt/mixture/cov.py', "        if i == 0:\n            err_msg = 'First index cannot be removed'", "        if i is None:\n            err_msg = 'First index cannot be removed'")]},
     {'name': 'pop forgets to recompute intercepts', 'expect': ('', ''),
      'edits': [(C_, '        self.slopes.pop(i)\n        self._set_intercepts()', '        self.slopes.pop(i)')]},
     {'name': 'insert puts slope one position later', 'expect': ('PAIR.slopes', ''),
